@@ -410,6 +410,33 @@ def m_decode(ex, st, recv, args, kwargs, node):
 
 @method('str', 'format')
 def m_format(ex, st, recv, args, kwargs, node):
+    """exact for constant templates with plain {name} / {} fields and str arguments; otherwise some string"""
+    import re as _re
+    if recv.has_py and isinstance(recv.py, str):
+        parts = _re.split(r'(\{[A-Za-z_0-9]*\})', recv.py)
+        out, pos, ok = [], 0, True
+        for p in parts:
+            if _re.fullmatch(r'\{[A-Za-z_0-9]*\}', p):
+                name = p[1:-1]
+                if name == '' or name.isdigit():
+                    idx = pos if name == '' else int(name)
+                    pos += 1
+                    v = args[idx] if idx < len(args) else None
+                else:
+                    v = kwargs.get(name)
+                if v is None or not isinstance(v.ty, Ty.TStr):
+                    ok = False
+                    break
+                out.append(str_of(v))
+            elif p:
+                if '{' in p or '}' in p:
+                    ok = False
+                    break
+                out.append(z3.StringVal(p))
+        if ok:
+            if not out:
+                return [(st, const_sv(''))], []
+            return [(st, S(out[0] if len(out) == 1 else z3.Concat(*out)))], []
     return [(st, S(fresh('fmt', StrS)))], []
 
 
